@@ -7,6 +7,7 @@
 import Purr.Model.WalkRec
 import Purr.Lemmas.BuilderL
 import Purr.Lemmas.StereoL
+import Purr.Lemmas.WalkL
 namespace Purr
 open Purr.Spec
 
@@ -96,12 +97,23 @@ theorem view_some {g : List Node} {i : Nat} {es : List Edge} (h : view g i = som
 theorem view_none_of_ge {g : List Node} {i : Nat} (h : g.length ≤ i) : view g i = none := by
   unfold view; rw [List.getElem?_eq_none_iff.mpr h]; rfl
 
+def kindAt (G : List Node) (i : Nat) : Option AtomKind := (G[i]?).map Node.kind
+
+theorem kindAt_eq (G : List Node) (i : Nat) : kindAt G i = (G.map Node.kind)[i]? := by
+  unfold kindAt; rw [List.getElem?_map]
+
+/-- running the builder never changes the kind of an existing node -/
+theorem brun_kindAt {s s' : BState} {es : List Event} (h : brun s es = some s') {i : Nat} (hi : i < s.graph.length) :
+    kindAt s'.graph i = kindAt s.graph i := by
+  rw [kindAt_eq, kindAt_eq, brun_kinds es h, List.getElem?_append_left (by simpa using hi)]
+
 /-- the builder's `extend` on the view -/
 theorem bstep_extend_view {s : BState} {sid : Nat} {rest : List Nat} {aes : List Edge} (b : BondKind) (k : AtomKind)
     (hst : s.stack = sid :: rest) (hv : view s.graph sid = some aes) :
     ∃ s1, bstep s (.extend b k) = some s1 ∧ s1.stack = s.graph.length :: sid :: rest ∧
       s1.graph.length = s.graph.length + 1 ∧ s1.opens = s.opens ∧ s1.errors = s.errors ∧
-      view s1.graph = upd (upd (view s.graph) s.graph.length [⟨b.reverse, .id sid⟩]) sid (aes ++ [⟨b, .id s.graph.length⟩]) := by
+      view s1.graph = upd (upd (view s.graph) s.graph.length [⟨b.reverse, .id sid⟩]) sid (aes ++ [⟨b, .id s.graph.length⟩]) ∧
+      kindAt s1.graph s.graph.length = some k.invert := by
   obtain ⟨n, hn, hne⟩ := view_some hv
   have hlt : sid < s.graph.length := by
     apply Nat.lt_of_not_le; intro hge
@@ -110,11 +122,14 @@ theorem bstep_extend_view {s : BState} {sid : Nat} {rest : List Nat} {aes : List
       stack := s.graph.length :: s.stack
       graph := addEdge (s.graph ++ [⟨k.invert, [⟨b.reverse, .id sid⟩]⟩]) sid ⟨b, .id s.graph.length⟩ } := by
     simp only [bstep, hst, hlt, if_true]
-  refine ⟨_, hb, by simp [hst], by simp [length_addEdge], rfl, rfl, ?_⟩
-  simp only
-  have hn' : (s.graph ++ [⟨k.invert, [⟨b.reverse, .id sid⟩]⟩])[sid]? = some n := by
-    rw [getElem?_snoc_lt _ _ hlt]; exact hn
-  rw [view_addEdge hn', view_snoc, hne]
+  refine ⟨_, hb, by simp [hst], by simp [length_addEdge], rfl, rfl, ?_, ?_⟩
+  · simp only
+    have hn' : (s.graph ++ [⟨k.invert, [⟨b.reverse, .id sid⟩]⟩])[sid]? = some n := by
+      rw [getElem?_snoc_lt _ _ hlt]; exact hn
+    rw [view_addEdge hn', view_snoc, hne]
+  · simp only
+    rw [kindAt_eq, addEdge_kinds]
+    simp
 
 theorem upd_same (N : View) (i : Nat) (v : List Edge) : upd N i v i = some v := by simp [upd]
 theorem upd_other (N : View) {i j : Nat} (v : List Edge) (h : j ≠ i) : upd N i v j = N j := by simp [upd, h]
@@ -138,9 +153,10 @@ theorem keep_subset {p : Option Nat} {bs : List Bond} {b : Bond} (h : b ∈ keep
   exact h
 
 /-- what the simulation establishes for a node created during it -/
-def NewNode (g : Graph) (N : View) (ord : List Nat) (x : Nat) : Prop :=
-  ∃ q atomX, q ∈ ord ∧ g[x]? = some atomX ∧ (∀ b ∈ atomX.bonds, b.tid ∈ ord) ∧
-    N (pos ord x) = some ((bondsTo atomX.bonds q ++ keep (some q) atomX.bonds).map (edgeOf ord))
+def NewNode (g : Graph) (G : List Node) (ord : List Nat) (x : Nat) : Prop :=
+  ∃ q atomX, q ∈ ord ∧ g[x]? = some atomX ∧ (∃ back, bondsTo atomX.bonds q = [back]) ∧ (∀ b ∈ atomX.bonds, b.tid ∈ ord) ∧
+    view G (pos ord x) = some ((bondsTo atomX.bonds q ++ keep (some q) atomX.bonds).map (edgeOf ord)) ∧
+    kindAt G (pos ord x) = some (enterKind q atomX.kind atomX.bonds).invert
 
 /-- RTC, forest case: the simulation between the recursive traversal and the graph builder. -/
 theorem kids_sim (g : Graph) (hw : WellFormed g) : ∀ (fuel : Nat) (ord : List Nat) (pool : Pool) (a : Nat) (p : Option Nat)
@@ -155,7 +171,7 @@ theorem kids_sim (g : Graph) (hw : WellFormed g) : ∀ (fuel : Nat) (ord : List 
         s'.graph.length = ord'.length ∧
         (∀ b ∈ keep p bs, b.tid ∈ ord') ∧
         view s'.graph (pos ord a) = some (aes ++ (keep p bs).map (edgeOf ord')) ∧
-        (∀ x ∈ new, NewNode g (view s'.graph) ord' x) ∧
+        (∀ x ∈ new, NewNode g s'.graph ord' x) ∧
         (∀ i, i < ord.length → i ≠ pos ord a → view s'.graph i = view s.graph i) ∧
         s'.opens = s.opens ∧ s'.errors = s.errors := by
   intro fuel
@@ -215,9 +231,9 @@ theorem kids_sim (g : Graph) (hw : WellFormed g) : ∀ (fuel : Nat) (ord : List 
                 -- after the optional pop
                 have hpop := brun_popEv s C (pos ord a :: S) cur hs hc
                 -- after extend
-                obtain ⟨s1, hb1, hst1, hlen1, hop1, herr1, hview1⟩ :=
+                obtain ⟨s1, hb1, hst1, hlen1, hop1, herr1, hview1, hkind1⟩ :=
                   bstep_extend_view (s := { s with stack := pos ord a :: S }) b.kind (enterKind a tatom.kind tatom.bonds) rfl hva
-                simp only at hst1 hlen1 hop1 herr1 hview1
+                simp only at hst1 hlen1 hop1 herr1 hview1 hkind1
                 have hg0 : s.graph.length = ord.length := hlen
                 -- positions
                 have hpos_t : pos (ord ++ [b.tid]) b.tid = ord.length := pos_snoc_new htn
@@ -267,29 +283,32 @@ theorem kids_sim (g : Graph) (hw : WellFormed g) : ∀ (fuel : Nat) (ord : List 
                 · -- new nodes
                   intro x hx
                   simp only [List.cons_append, List.mem_cons, List.mem_append] at hx
-                  have lift : ∀ y, y ∈ ord1 → NewNode g (view s2.graph) ord1 y → y ≠ a → NewNode g (view s3.graph) ord2 y := by
-                    intro y hy ⟨q, atomY, hq, hgy, hall, hvy⟩ hya
-                    refine ⟨q, atomY, by rw [hord2]; simp [hq], hgy, fun b' hb' => by rw [hord2]; simp [hall b' hb'], ?_⟩
+                  have lift : ∀ y, y ∈ ord1 → NewNode g s2.graph ord1 y → y ≠ a → NewNode g s3.graph ord2 y := by
+                    intro y hy ⟨q, atomY, hq, hgy, hbk, hall, hvy, hky⟩ hya
                     have hpy : pos ord2 y = pos ord1 y := by rw [hord2]; exact pos_append_of_mem hy _
-                    rw [hpy, hfr2 (pos ord1 y) (pos_lt_of_mem hy) (fun e => hya (pos_inj hy ha1 e)), hvy, hord2]
-                    congr 1
-                    apply (map_edgeOf_append _ new2).symm
-                    intro b' hb'
-                    simp only [List.mem_append] at hb'
-                    rcases hb' with hb' | hb'
-                    · exact hall b' (by unfold bondsTo at hb'; exact (List.mem_filter.mp hb').1)
-                    · exact hall b' (keep_subset hb').1
+                    refine ⟨q, atomY, by rw [hord2]; simp [hq], hgy, hbk, fun b' hb' => by rw [hord2]; simp [hall b' hb'], ?_, ?_⟩
+                    · rw [hpy, hfr2 (pos ord1 y) (pos_lt_of_mem hy) (fun e => hya (pos_inj hy ha1 e)), hvy, hord2]
+                      congr 1
+                      apply (map_edgeOf_append _ new2).symm
+                      intro b' hb'
+                      simp only [List.mem_append] at hb'
+                      rcases hb' with hb' | hb'
+                      · exact hall b' (by unfold bondsTo at hb'; exact (List.mem_filter.mp hb').1)
+                      · exact hall b' (keep_subset hb').1
+                    · rw [hpy, brun_kindAt hrun2 (by rw [hlen2]; exact pos_lt_of_mem hy)]; exact hky
                   rcases hx with hx | hx | hx
                   · -- the child itself
                     subst hx
                     apply lift b.tid ht1 _ (Ne.symm hat)
-                    refine ⟨a, tatom, ha1, htat, ?_, ?_⟩
+                    have hpx : pos ord1 b.tid = pos (ord ++ [b.tid]) b.tid := by rw [hord1]; exact pos_append_of_mem (by simp) _
+                    refine ⟨a, tatom, ha1, htat, ⟨back, hback⟩, ?_, ?_, ?_⟩
+                    rotate_left 2
+                    · rw [hpx, hpos_t, brun_kindAt hrun1 (by rw [hlen1, hg0]; omega), ← hg0]; exact hkind1
                     · intro b' hb'
                       by_cases hb'a : b'.tid = a
                       · rw [hb'a]; exact ha1
                       · exact hin1 b' (by unfold keep; simp [hb']; exact fun e => hb'a e.symm)
-                    · have hpx : pos ord1 b.tid = pos (ord ++ [b.tid]) b.tid := by rw [hord1]; exact pos_append_of_mem (by simp) _
-                      rw [hpx, hvt, hback]
+                    · rw [hpx, hvt, hback]
                       simp only [List.map_append, List.map_cons, List.map_nil, List.cons_append, List.nil_append]
                       congr 2
                       unfold edgeOf
@@ -313,5 +332,358 @@ theorem kids_sim (g : Graph) (hw : WellFormed g) : ∀ (fuel : Nat) (ord : List 
                     upd_other _ _ hia, upd_other _ _ (by rw [hg0]; omega)]
                 · rw [hop3, hop2, hop1]
                 · rw [herr3, herr2, herr1]
+
+end Purr
+
+namespace Purr
+open Purr.Spec
+
+/-- an atom's bond list with the bond it was entered through (if any) moved to the front -/
+def arrivalFirst (arr : Option Nat) (bs : List Bond) : List Bond :=
+  match arr with
+  | none => bs
+  | some q => bondsTo bs q ++ keep (some q) bs
+
+/-- the kind the builder ends up recording for an atom entered from `arr` -/
+def enteredKind (arr : Option Nat) (atom : Atom) : AtomKind :=
+  match arr with
+  | none => atom.kind
+  | some q => (enterKind q atom.kind atom.bonds).invert
+
+/-- the builder's node for atom `x` is `x` itself, renumbered, arrival bond first -/
+def NodeOK (g : Graph) (G : List Node) (ord : List Nat) (x : Nat) : Prop :=
+  ∃ atomX arr, g[x]? = some atomX ∧ (∀ b ∈ atomX.bonds, b.tid ∈ ord) ∧
+    (∀ q, arr = some q → q ∈ ord ∧ ∃ back, bondsTo atomX.bonds q = [back]) ∧
+    view G (pos ord x) = some ((arrivalFirst arr atomX.bonds).map (edgeOf ord)) ∧
+    kindAt G (pos ord x) = some (enteredKind arr atomX)
+
+theorem NewNode.nodeOK {g : Graph} {G : List Node} {ord : List Nat} {x : Nat} (h : NewNode g G ord x) : NodeOK g G ord x := by
+  obtain ⟨q, atomX, hq, hg, hbk, hall, hv, hk⟩ := h
+  exact ⟨atomX, some q, hg, hall, fun q' h' => by cases h'; exact ⟨hq, hbk⟩, hv, hk⟩
+
+theorem keep_none (bs : List Bond) : keep none bs = bs := by
+  unfold keep; simp
+
+theorem NodeOK.extend {g : Graph} {G G' : List Node} {ord : List Nat} {x : Nat} (h : NodeOK g G ord x) (hx : x ∈ ord)
+    (more : List Nat) (hv : view G' (pos ord x) = view G (pos ord x)) (hk : kindAt G' (pos ord x) = kindAt G (pos ord x)) :
+    NodeOK g G' (ord ++ more) x := by
+  obtain ⟨atomX, arr, hg, hall, harr, hvx, hkx⟩ := h
+  refine ⟨atomX, arr, hg, fun b hb => by simp [hall b hb], fun q hq => ⟨by simp [(harr q hq).1], (harr q hq).2⟩, ?_, ?_⟩
+  · rw [pos_append_of_mem hx, hv, hvx]
+    congr 1
+    apply (map_edgeOf_append _ more).symm
+    intro b hb
+    cases arr with
+    | none => exact hall b hb
+    | some q =>
+      simp only [arrivalFirst, List.mem_append] at hb
+      rcases hb with hb | hb
+      · exact hall b (by unfold bondsTo at hb; exact (List.mem_filter.mp hb).1)
+      · exact hall b (keep_subset hb).1
+  · rw [pos_append_of_mem hx, hk, hkx]
+
+/-- the builder's `root` on the view -/
+theorem bstep_root_view (s : BState) (k : AtomKind) :
+    ∃ s1, bstep s (.root k) = some s1 ∧ s1.stack = s.graph.length :: s.stack ∧ s1.graph.length = s.graph.length + 1 ∧
+      s1.opens = s.opens ∧ s1.errors = s.errors ∧ view s1.graph = upd (view s.graph) s.graph.length [] ∧
+      kindAt s1.graph s.graph.length = some k := by
+  refine ⟨_, rfl, rfl, by simp, rfl, rfl, by simp only; rw [view_snoc], ?_⟩
+  simp only
+  rw [kindAt_eq]; simp
+
+/-- RTC, forest case, all components -/
+theorem comps_sim (g : Graph) (hw : WellFormed g) (fuel : Nat) : ∀ (ids : List Nat) (ord : List Nat) (pool : Pool)
+    (es : List (Event × Nat)) (ord' : List Nat) (pool' : Pool),
+    comps g fuel ids ord pool = some (es, ord', pool') → (∀ e ∈ es, isJoin e = false) → ord.Nodup →
+    ∀ (s : BState), s.graph.length = ord.length → (∀ x ∈ ord, NodeOK g s.graph ord x) →
+      ∃ s' new, brun s (es.map (·.1)) = some s' ∧ ord' = ord ++ new ∧ ord'.Nodup ∧ s'.graph.length = ord'.length ∧
+        (∀ x ∈ ord', NodeOK g s'.graph ord' x) ∧ (∀ id ∈ ids, id < g.length → id ∈ ord') ∧
+        s'.opens = s.opens ∧ s'.errors = s.errors
+  | [], ord, pool, es, ord', pool', h, _, hnd, s, hlen, hok => by
+    simp only [comps, Option.some.injEq, Prod.mk.injEq] at h
+    obtain ⟨rfl, rfl, rfl⟩ := h
+    exact ⟨s, [], by simp [brun], by simp, hnd, hlen, hok, by simp, rfl, rfl⟩
+  | id :: ids, ord, pool, es, ord', pool', h, hj, hnd, s, hlen, hok => by
+    simp only [comps] at h
+    split at h
+    · rename_i hvis
+      obtain ⟨s', new, h1, h2, h3, h4, h5, h6, h7, h8⟩ := comps_sim g hw fuel ids ord pool es ord' pool' h hj hnd s hlen hok
+      refine ⟨s', new, h1, h2, h3, h4, h5, ?_, h7, h8⟩
+      intro i hi hlt
+      simp only [List.mem_cons] at hi
+      rcases hi with rfl | hi
+      · rw [h2]; simp [by simpa using hvis]
+      · exact h6 i hi hlt
+    · rename_i hvis
+      have hid : id ∉ ord := by simpa using hvis
+      split at h
+      · cases h
+      · rename_i root hroot
+        split at h
+        · cases h
+        · rename_i es1 ord1 pool1 c1 h1
+          split at h
+          · cases h
+          · rename_i es2 ord2 pool2 h2
+            simp only [Option.some.injEq, Prod.mk.injEq] at h
+            obtain ⟨rfl, rfl, rfl⟩ := h
+            have hj1 : ∀ e ∈ es1, isJoin e = false := fun e he => hj e (by simp [he])
+            have hj2 : ∀ e ∈ es2, isJoin e = false := fun e he => hj e (by simp [he])
+            obtain ⟨s1, hb1, hst1, hlen1, hop1, herr1, hview1, hkind1⟩ := bstep_root_view s root.kind
+            have hnd1 : (ord ++ [id]).Nodup := by
+              rw [List.nodup_append]; exact ⟨hnd, by simp, by intro x hx y hy; simp at hy; subst hy; exact fun e => hid (e ▸ hx)⟩
+            have hpos : pos (ord ++ [id]) id = ord.length := pos_snoc_new hid
+            have hv1 : view s1.graph (pos (ord ++ [id]) id) = some [] := by rw [hview1, hpos, hlen, upd_same]
+            obtain ⟨s2, new1, hrun1, hord1, hnd_1, _, hlen2, hin1, hva, hnew1, hfr1, hop2, herr2⟩ :=
+              kids_sim g hw fuel (ord ++ [id]) pool id none root.bonds 0 es1 ord1 pool1 c1 h1 hj1 (by simp) hnd1
+                ⟨root, hroot, fun _ h => h⟩ s1 [] s.stack []
+                (by rw [hst1, hpos, hlen]; rfl) rfl (by rw [hlen1, hlen]; simp) hv1
+            -- every atom visited so far is described correctly in s2
+            have hok2 : ∀ x ∈ ord1, NodeOK g s2.graph ord1 x := by
+              intro x hx
+              rw [hord1] at hx ⊢
+              simp only [List.mem_append, List.mem_singleton] at hx
+              rcases hx with (hx | hx) | hx
+              · -- an atom of an earlier component: untouched
+                have hpx : pos ord x < ord.length := pos_lt_of_mem hx
+                have hne : pos ord x ≠ pos (ord ++ [id]) id := by rw [hpos]; omega
+                have hx' : x ∈ ord ++ [id] := by simp [hx]
+                have hpx' : pos (ord ++ [id]) x = pos ord x := pos_append_of_mem hx _
+                rw [List.append_assoc]
+                apply (hok x hx).extend hx
+                · rw [← hpx', hfr1 (pos (ord ++ [id]) x) (by rw [hpx']; simp; omega) (by rw [hpx']; exact hne), hview1, hpx',
+                    upd_other _ _ (by omega)]
+                · rw [brun_kindAt hrun1 (by rw [hlen1]; omega), kindAt_eq, kindAt_eq]
+                  have := bstep_kinds hb1
+                  rw [this, List.getElem?_append_left (by simpa using (by omega : pos ord x < s.graph.length))]
+              · -- the root of this component
+                subst hx
+                refine ⟨root, none, hroot, ?_, (by intro q h; cases h), ?_, ?_⟩
+                · intro b hb; rw [← hord1]; exact hin1 b (by rw [keep_none]; exact hb)
+                · have : pos ((ord ++ [x]) ++ new1) x = pos (ord ++ [x]) x := pos_append_of_mem (by simp) _
+                  rw [this, hva, keep_none, ← hord1]; simp [arrivalFirst]
+                · have : pos ((ord ++ [x]) ++ new1) x = pos (ord ++ [x]) x := pos_append_of_mem (by simp) _
+                  rw [this, hpos, brun_kindAt hrun1 (by rw [hlen1]; omega), ← hlen]; exact hkind1
+              · rw [← hord1]; exact (hnew1 x hx).nodeOK
+            obtain ⟨s3, new2, hrun2, hord2, hnd_2, hlen3, hok3, hids, hop3, herr3⟩ :=
+              comps_sim g hw fuel ids ord1 pool1 es2 ord2 pool2 h2 hj2 hnd_1 s2 hlen2 hok2
+            refine ⟨s3, id :: new1 ++ new2, ?_, by rw [hord2, hord1]; simp, hnd_2, hlen3, hok3, ?_, by rw [hop3, hop2, hop1], by rw [herr3, herr2, herr1]⟩
+            · simp only [List.map_cons, List.map_append]
+              have : brun s ([] ++ Event.root root.kind :: (es1.map (·.1) ++ es2.map (·.1))) = some s3 :=
+                brun_chain (s0 := s) rfl hb1 hrun1 hrun2
+              simpa using this
+            · intro i hi hlt
+              simp only [List.mem_cons] at hi
+              rcases hi with rfl | hi
+              · rw [hord2, hord1]; simp
+              · exact hids i hi hlt
+
+end Purr
+
+namespace Purr
+open Purr.Spec
+
+theorem nodeBonds_all_id : ∀ (es : List Edge), (∀ e ∈ es, ∃ t, e.target = .id t) → nodeBonds es = .ok (es.map toBond)
+  | [], _ => rfl
+  | e :: es, h => by
+    obtain ⟨t, ht⟩ := h e (by simp)
+    have ih := nodeBonds_all_id es (fun e' he' => h e' (List.mem_cons_of_mem _ he'))
+    simp only [nodeBonds, ht, ih, Except.map, List.map_cons, toBond, tidOf]
+
+theorem buildNodes_all_id : ∀ (G : List Node), (∀ n ∈ G, ∀ e ∈ n.edges, ∃ t, e.target = .id t) →
+    buildNodes G = .ok (G.map (fun n => ⟨n.kind, n.edges.map toBond⟩))
+  | [], _ => rfl
+  | n :: ns, h => by
+    have h1 := nodeBonds_all_id n.edges (h n (by simp))
+    have ih := buildNodes_all_id ns (fun n' hn' => h n' (List.mem_cons_of_mem _ hn'))
+    simp only [buildNodes, h1, ih, Except.map, List.map_cons]
+
+theorem toBond_edgeOf (ord : List Nat) (b : Bond) : toBond (edgeOf ord b) = ⟨b.kind, pos ord b.tid⟩ := rfl
+
+/-- the graph the round trip builds: `g` renumbered in visit order, arrival bonds first -/
+def Relabelled (g : Graph) (ord : List Nat) (g' : Graph) : Prop :=
+  g'.length = ord.length ∧
+  ∀ x ∈ ord, ∃ atomX arr, g[x]? = some atomX ∧ (∀ q, arr = some q → q ∈ ord ∧ ∃ back, bondsTo atomX.bonds q = [back]) ∧
+    g'[pos ord x]? = some ⟨enteredKind arr atomX, (arrivalFirst arr atomX.bonds).map (fun b => ⟨b.kind, pos ord b.tid⟩)⟩
+
+/-- RTC for forests: building from the events of the traversal of a well-formed graph, when the traversal
+    meets no ring closure, gives the graph renumbered in visit order with every arrival bond first. -/
+theorem rtc_forest (g : Graph) (hw : WellFormed g) (es : List (Event × Nat)) (ord : List Nat)
+    (h : walkRecL g = some (es, ord)) (hj : ∀ e ∈ es, isJoin e = false) :
+    ∃ g', build? (es.map (·.1)) = some (.ok g') ∧ Relabelled g ord g' ∧ ord.Nodup ∧ (∀ x, x < g.length ↔ x ∈ ord) := by
+  unfold walkRecL at h
+  split at h
+  · cases h
+  · simp only [Option.map_eq_some_iff] at h
+    obtain ⟨⟨es0, ord0, pool0⟩, hc, heq⟩ := h
+    simp only [Prod.mk.injEq] at heq
+    obtain ⟨rfl, rfl⟩ := heq
+    obtain ⟨s', new, hrun, hord, hnd, hlen, hok, hids, hop, herr⟩ :=
+      comps_sim g hw (recFuel g) (List.range g.length) [] .init es0 ord0 pool0 hc hj (by simp) .init rfl (by simp)
+    simp only [BState.init] at hop herr
+    -- every node has only resolved bonds
+    have hpos_surj : ∀ i, i < s'.graph.length → ∃ x ∈ ord0, pos ord0 x = i := by
+      intro i hi
+      rw [hlen] at hi
+      refine ⟨ord0[i], List.getElem_mem hi, ?_⟩
+      unfold pos
+      exact (List.Nodup.idxOf_getElem hnd i hi)
+    have hall : ∀ n ∈ s'.graph, ∀ e ∈ n.edges, ∃ t, e.target = .id t := by
+      intro n hn e he
+      obtain ⟨i, hi, hni⟩ := List.getElem_of_mem hn
+      obtain ⟨x, hx, hpx⟩ := hpos_surj i hi
+      obtain ⟨atomX, arr, _, _, _, hv, _⟩ := hok x hx
+      rw [hpx] at hv
+      obtain ⟨n', hn', hne'⟩ := view_some hv
+      rw [List.getElem?_eq_getElem hi, hni] at hn'
+      cases hn'
+      rw [hne'] at he
+      simp only [List.mem_map] at he
+      obtain ⟨b, _, rfl⟩ := he
+      exact ⟨_, rfl⟩
+    have hbuild := buildNodes_all_id s'.graph hall
+    refine ⟨s'.graph.map (fun n => ⟨n.kind, n.edges.map toBond⟩), ?_, ⟨by simp [hlen], ?_⟩, hnd, ?_⟩
+    · unfold build?
+      rw [hrun]
+      simp only [Option.map_some, BState.build, herr, hbuild]
+    · intro x hx
+      obtain ⟨atomX, arr, hg, _, harr, hv, hk⟩ := hok x hx
+      refine ⟨atomX, arr, hg, harr, ?_⟩
+      obtain ⟨n, hn, hne⟩ := view_some hv
+      rw [List.getElem?_map, hn]
+      simp only [Option.map_some]
+      have hkn : n.kind = enteredKind arr atomX := by
+        unfold kindAt at hk; rw [hn] at hk; simpa using hk
+      rw [hkn, hne, List.map_map]
+      rfl
+    · intro x
+      constructor
+      · intro hx
+        have := hids x (by simp [hx]) hx
+        simpa using this
+      · intro hx
+        obtain ⟨atomX, _, hg, _⟩ := hok x hx
+        apply Nat.lt_of_not_le; intro hge
+        rw [List.getElem?_eq_none_iff.mpr hge] at hg; cases hg
+
+end Purr
+
+namespace Purr
+open Purr.Spec
+
+theorem protoRun_popEv (m cur : Nat) (hm : 1 ≤ m) :
+    protoRun (some (m + cur)) ((popEv cur).map (·.1)) = some (some m) := by
+  rw [popEv_map]
+  split
+  · rename_i h
+    have : 1 ≤ cur ∧ cur < m + cur := by omega
+    simp only [protoRun, stepProto, this, and_self, if_true]
+    congr 2; omega
+  · have : cur = 0 := by omega
+    subst this; simp [protoRun]
+
+theorem protoRun_append' (ps : Option Nat) (a b : List Event) (ps' : Option Nat) (h : protoRun ps a = some ps') :
+    protoRun ps (a ++ b) = protoRun ps' b := by
+  rw [protoRun_append, h]; rfl
+
+/-- the events of a recursive descent obey the follower protocol: from path length `m + cur` (with `m ≥ 1`
+    atoms up to the current one) they lead to `m + c` -/
+theorem kids_proto (g : Graph) : ∀ (fuel : Nat) (ord : List Nat) (pool : Pool) (a : Nat) (p : Option Nat) (bs : List Bond) (cur : Nat)
+    (es : List (Event × Nat)) (ord' : List Nat) (pool' : Pool) (c : Nat),
+    kids g fuel ord pool a p bs cur = some (es, ord', pool', c) → ∀ m, 1 ≤ m →
+    protoRun (some (m + cur)) (es.map (·.1)) = some (some (m + c)) := by
+  intro fuel
+  induction fuel with
+  | zero => intro ord pool a p bs cur es ord' pool' c h; simp [kids] at h
+  | succ f ih =>
+    intro ord pool a p bs cur es ord' pool' c h m hm
+    cases bs with
+    | nil =>
+      simp only [kids, Option.some.injEq, Prod.mk.injEq] at h
+      obtain ⟨rfl, _, _, rfl⟩ := h
+      simp [protoRun]
+    | cons b bs =>
+      simp only [kids] at h
+      split at h
+      · exact ih ord pool a p bs cur es ord' pool' c h m hm
+      · split at h
+        · split at h
+          · split at h
+            · rename_i es0 o0 p0 c0 h0
+              simp only [Option.some.injEq, Prod.mk.injEq] at h
+              obtain ⟨rfl, _, _, rfl⟩ := h
+              simp only [List.map_append, List.map_cons]
+              rw [protoRun_append' _ _ _ _ (protoRun_popEv m cur hm)]
+              simp only [protoRun, stepProto]
+              have := ih ord _ a p bs 0 es0 o0 p0 c0 h0 m hm
+              simpa using this
+            · cases h
+          · cases h
+        · split at h
+          · cases h
+          · rename_i child _
+            split at h
+            · cases h
+            · rename_i es1 ord1 pool1 d1 h1
+              split at h
+              · cases h
+              · rename_i es2 ord2 pool2 c2 h2
+                simp only [Option.some.injEq, Prod.mk.injEq] at h
+                obtain ⟨rfl, _, _, rfl⟩ := h
+                simp only [List.map_append, List.map_cons, List.append_assoc]
+                rw [protoRun_append' _ _ _ _ (protoRun_popEv m cur hm)]
+                simp only [List.cons_append, protoRun, stepProto]
+                have e1 := ih _ pool b.tid (some a) child.bonds 0 es1 ord1 pool1 d1 h1 (m + 1) (by omega)
+                rw [protoRun_append' _ _ _ _ e1]
+                have e2 := ih ord1 pool1 a p bs (1 + d1) es2 ord2 pool2 c2 h2 m hm
+                rw [show m + 1 + d1 = m + (1 + d1) by omega]
+                exact e2
+
+theorem comps_proto (g : Graph) (fuel : Nat) : ∀ (ids : List Nat) (ord : List Nat) (pool : Pool)
+    (es : List (Event × Nat)) (ord' : List Nat) (pool' : Pool),
+    comps g fuel ids ord pool = some (es, ord', pool') → ∀ n,
+    (protoRun (if n = 0 then none else some n) (es.map (·.1))).isSome
+  | [], ord, pool, es, ord', pool', h, n => by
+    simp only [comps, Option.some.injEq, Prod.mk.injEq] at h
+    obtain ⟨rfl, _, _⟩ := h
+    simp [protoRun]
+  | id :: ids, ord, pool, es, ord', pool', h, n => by
+    simp only [comps] at h
+    split at h
+    · exact comps_proto g fuel ids ord pool es ord' pool' h n
+    · split at h
+      · cases h
+      · rename_i root _
+        split at h
+        · cases h
+        · rename_i es1 ord1 pool1 c1 h1
+          split at h
+          · cases h
+          · rename_i es2 ord2 pool2 h2
+            simp only [Option.some.injEq, Prod.mk.injEq] at h
+            obtain ⟨rfl, _, _⟩ := h
+            simp only [List.map_cons, List.map_append]
+            have hroot : stepProto (if n = 0 then none else some n) (.root root.kind) = some (some (n + 1)) := by
+              split
+              · rename_i h0; subst h0; rfl
+              · rfl
+            simp only [List.cons_append, protoRun, hroot]
+            have e1 := kids_proto g fuel _ pool id none root.bonds 0 es1 ord1 pool1 c1 h1 (n + 1) (by omega)
+            rw [protoRun_append' _ _ _ _ e1]
+            have := comps_proto g fuel ids ord1 pool1 es2 ord2 pool2 h2 (n + 1 + c1)
+            have hne : ¬ (n + 1 + c1 = 0) := by omega
+            simpa [hne] using this
+
+theorem conformant_of_walkRec (g : Graph) (es : List (Event × Nat)) (ord : List Nat) (h : walkRecL g = some (es, ord)) :
+    Conformant (es.map (·.1)) := by
+  unfold walkRecL at h
+  split at h
+  · cases h
+  · simp only [Option.map_eq_some_iff] at h
+    obtain ⟨⟨es0, ord0, pool0⟩, hc, heq⟩ := h
+    simp only [Prod.mk.injEq] at heq
+    obtain ⟨rfl, rfl⟩ := heq
+    have := comps_proto g (recFuel g) _ _ _ _ _ _ hc 0
+    simpa [Conformant] using this
 
 end Purr
